@@ -638,7 +638,488 @@ fn part_pure(rep: &mut Reporter, tier: Tier) -> Stats {
     }
 }
 
-// fn part_font(rep: &mut Reporter, tier: Tier) -> Stats { ... }   // (a), (b), (d): added later
+
+// ================================================================== parts (a), (b), (d): real builds
+//
+// (a) the font is the same with and without IR emission (in process, and the product binary with
+//     and without --emit-ir);
+// (b) every item written to the IR directory reads back equal (the `Persisted` hook events);
+// (d) every persisted id has a file of its own and no other files appear.
+
+use fontdrasil::verif::{Ev, Hooks, Op};
+use std::sync::{Arc, Mutex};
+
+struct Recorder {
+    events: Mutex<Vec<(String, String, bool)>>,
+}
+
+impl Hooks for Recorder {
+    fn point(&self, _op: Op) {}
+    fn event(&self, ev: Ev) {
+        if let Ev::Persisted { id, path, ok } = ev {
+            self.events.lock().unwrap().push((id, path, ok));
+        }
+    }
+    fn spawn(&self, f: Box<dyn FnOnce() + Send + 'static>) {
+        f()
+    }
+    fn join_all(&self) {}
+}
+
+fn rect_layer(adv: f64, w: f64, anchors: &[(&str, f64, f64)]) -> dgen::Layer {
+    dgen::Layer {
+        advance: adv,
+        contours: vec![dgen::shapes::rect(50.0, 0.0, 50.0 + w, 600.0)],
+        anchors: anchors.iter().map(|(n, x, y)| dgen::Anchor { name: n.to_string(), x: *x, y: *y }).collect(),
+        ..Default::default()
+    }
+}
+
+/// Glyph names that stress the file naming on a real build: case-only differences, reserved
+/// device names, dots and underscores; anchors and kerning so that every named id kind is written.
+fn names_design() -> dgen::Design {
+    use dgen::*;
+    let mut d = Design::skeleton("NamesC14", vec![Axis::new("wght", "Weight", 400.0, 400.0, 700.0)], vec![vec![400.0], vec![700.0]]);
+    let names: [(&str, &[u32]); 9] = [
+        ("a", &[0x61]), ("A", &[0x41]), ("con", &[]), ("CON", &[]), ("nul", &[]), ("a.b", &[]), ("a_b", &[]), ("A_", &[]), ("acutecomb", &[0x301]),
+    ];
+    for (gi, (n, cps)) in names.iter().enumerate() {
+        let mut g = Glyph::new(n, cps);
+        for m in 0..2 {
+            let w = 200.0 + 10.0 * gi as f64 + 30.0 * m as f64;
+            let anchors: Vec<(&str, f64, f64)> = if *n == "acutecomb" { vec![("_top", 100.0, 500.0)] } else { vec![("top", w / 2.0, 600.0 + m as f64)] };
+            g.layers.insert(m, rect_layer(w + 100.0, w, &anchors));
+        }
+        d.glyphs.push(g);
+    }
+    d.categories.insert("acutecomb".into(), "mark".into());
+    for m in 0..2 {
+        let k = m as f64;
+        d.masters[m].kerning.insert(("a".into(), "A".into()), -30.0 - 10.0 * k);
+        d.masters[m].kerning.insert(("con".into(), "nul".into()), -20.0 - 5.0 * k);
+        d.masters[m].kerning.insert(("A_".into(), "a_b".into()), 15.0 + k);
+    }
+    d
+}
+
+/// Kerning masters at normalized 0.501 and 0.504: two kerning instances whose locations agree to
+/// two decimals (the regression guard for the kern-instance file name).
+fn closekern_design() -> dgen::Design {
+    use dgen::*;
+    let locs = [0.0, 501.0, 504.0, 1000.0];
+    let mut d = Design::skeleton("CloseKernC14", vec![Axis::new("wght", "Weight", 0.0, 0.0, 1000.0)], locs.iter().map(|l| vec![*l]).collect());
+    for (gi, (n, cp)) in [("A", 0x41u32), ("V", 0x56), ("T", 0x54)].iter().enumerate() {
+        let mut g = Glyph::new(n, &[*cp]);
+        for (m, l) in locs.iter().enumerate() {
+            let w = 300.0 + 20.0 * gi as f64 + l / 10.0;
+            g.layers.insert(m, rect_layer(w + 100.0, w, &[]));
+        }
+        d.glyphs.push(g);
+    }
+    for (m, l) in locs.iter().enumerate() {
+        d.masters[m].kerning.insert(("A".into(), "V".into()), -40.0 - l / 20.0 - if m == 2 { 7.0 } else { 0.0 });
+        d.masters[m].kerning.insert(("T".into(), "A".into()), -30.0 - l / 25.0);
+    }
+    d
+}
+
+#[derive(Clone, Debug)]
+enum SrcKind {
+    Generated(&'static str),
+    Fixture(String),
+}
+
+struct Source {
+    name: String,
+    kind: SrcKind,
+    path: PathBuf,
+}
+
+fn generated(name: &str) -> Option<dgen::Design> {
+    Some(match name {
+        "J0" => checks::sources::j0(),
+        "J1" => checks::sources::j1(),
+        "J2" => checks::sources::j2(),
+        "names" => names_design(),
+        "closekern" => closekern_design(),
+        _ => return None,
+    })
+}
+
+const GENERATED: [&str; 5] = ["J0", "J1", "J2", "names", "closekern"];
+const FIXTURES_QUICK: [&str; 6] = [
+    "wght_var.designspace",
+    "glyphs3/WghtVar.glyphs",
+    "MVAR.designspace",
+    "dspace_rules/Basic.designspace",
+    "glyphs3/COLRv1-gradient.glyphs",
+    "COLRv0-multi-palette.ufo",
+];
+
+fn fixture_root() -> PathBuf {
+    Path::new(vcore::REPO).join("resources/testdata")
+}
+
+fn all_fixtures() -> Vec<String> {
+    let root = fixture_root();
+    let mut out = vec![];
+    for sub in ["", "glyphs2", "glyphs3", "dspace_rules", "designspace_from_glyphs"] {
+        let dir = if sub.is_empty() { root.clone() } else { root.join(sub) };
+        let Ok(rd) = std::fs::read_dir(&dir) else { continue };
+        for e in rd.flatten() {
+            let n = e.file_name().to_string_lossy().into_owned();
+            if [".designspace", ".glyphs", ".glyphspackage", ".ufo"].iter().any(|x| n.ends_with(x)) {
+                out.push(if sub.is_empty() { n } else { format!("{sub}/{n}") });
+            }
+        }
+    }
+    out.sort();
+    out
+}
+
+fn option_sets() -> Vec<fcx::Opts> {
+    let d = fcx::Opts::default;
+    vec![
+        d(),
+        fcx::Opts { flatten: true, ..d() },
+        fcx::Opts { decompose: true, ..d() },
+        fcx::Opts { no_production_names: true, ..d() },
+        fcx::Opts { skip_features: true, ..d() },
+        fcx::Opts { keep_direction: true, ..d() },
+    ]
+}
+
+fn count_files(dir: &Path, rel: &str, out: &mut Vec<String>) {
+    if let Ok(rd) = std::fs::read_dir(dir) {
+        for e in rd.flatten() {
+            let n = e.file_name().to_string_lossy().into_owned();
+            let p = e.path();
+            let r = if rel.is_empty() { n.clone() } else { format!("{rel}/{n}") };
+            if p.is_dir() {
+                count_files(&p, &r, out);
+            } else {
+                out.push(r);
+            }
+        }
+    }
+}
+
+fn failure_text(f: &fcx::Failure) -> String {
+    match f {
+        fcx::Failure::Error(e) => format!("error: {e}"),
+        fcx::Failure::Panic(e) => format!("panic: {e}"),
+    }
+}
+
+#[derive(Default, Clone)]
+struct BCounts {
+    cases: u64,
+    built: u64,
+    not_buildable: u64,
+    inproc_pairs_equal: u64,
+    product_pairs_equal: u64,
+    product_not_buildable: u64,
+    persisted_events: u64,
+    persisted_eq: u64,
+    persisted_bytes: u64,
+    exempt_events: u64,
+    distinct_ids: u64,
+    files: u64,
+    named_ids: u64,
+    kern_instance_ids: u64,
+    cases_with_data_ids: u64,
+    marker_files: u64,
+}
+
+impl BCounts {
+    fn add(&mut self, o: &BCounts) {
+        self.cases += o.cases;
+        self.built += o.built;
+        self.not_buildable += o.not_buildable;
+        self.inproc_pairs_equal += o.inproc_pairs_equal;
+        self.product_pairs_equal += o.product_pairs_equal;
+        self.product_not_buildable += o.product_not_buildable;
+        self.persisted_events += o.persisted_events;
+        self.persisted_eq += o.persisted_eq;
+        self.persisted_bytes += o.persisted_bytes;
+        self.exempt_events += o.exempt_events;
+        self.distinct_ids += o.distinct_ids;
+        self.files += o.files;
+        self.named_ids += o.named_ids;
+        self.kern_instance_ids += o.kern_instance_ids;
+        self.cases_with_data_ids += o.cases_with_data_ids;
+        self.marker_files += o.marker_files;
+    }
+}
+
+/// The documented id-less file: `features.marker` ("if the file exists features were compiled",
+/// fontbe/src/features.rs) is written directly, not through a context item.
+const MARKER: &str = "features.marker";
+/// The documented session-only field: ExtraFeaTables.os2_builder is `#[serde(skip)]` / "not
+/// persisted" (fontbe/src/orchestration.rs), so this one id may read back unequal.
+const EXEMPT_ID: &str = "ExtraFeaTables";
+
+/// One (source, option set): all sub-checks. Findings: (class key, message).
+fn check_build(src_name: &str, path: &Path, opts: &fcx::Opts, product: bool, cnt: &mut BCounts, sample: Option<&mut Vec<Value>>) -> Vec<(String, String)> {
+    let mut bad: Vec<(String, String)> = vec![];
+    cnt.cases += 1;
+    let on = opts.name();
+    // (a) in process
+    let plain = fcx::compile(path, opts, None);
+    let ir = vcore::Scratch::new("c14-ir");
+    let rec = Arc::new(Recorder { events: Mutex::new(vec![]) });
+    fontdrasil::verif::install(Some(rec.clone()));
+    let with_ir = fcx::compile(path, opts, Some(ir.path()));
+    fontdrasil::verif::install(None);
+    let events = std::mem::take(&mut *rec.events.lock().unwrap());
+    match (&plain, &with_ir) {
+        (Ok(a), Ok(b)) => {
+            cnt.built += 1;
+            if a == b {
+                cnt.inproc_pairs_equal += 1;
+            } else {
+                let at = a.iter().zip(b.iter()).position(|(x, y)| x != y).unwrap_or(a.len().min(b.len()));
+                bad.push(("font-differs-with-ir:in-process".into(), format!("{} and {} bytes, first difference at offset {at}", a.len(), b.len())));
+            }
+        }
+        (Err(a), Err(b)) => {
+            cnt.not_buildable += 1;
+            if std::mem::discriminant(a) != std::mem::discriminant(b) {
+                bad.push(("outcome-differs-with-ir:in-process".into(), format!("without IR: {}; with IR: {}", failure_text(a), failure_text(b))));
+            }
+        }
+        (Ok(_), Err(e)) => bad.push(("build-fails-only-with-ir:in-process".into(), failure_text(e))),
+        (Err(e), Ok(_)) => bad.push(("build-fails-only-without-ir:in-process".into(), failure_text(e))),
+    }
+    // (b) read back
+    cnt.persisted_events += events.len() as u64;
+    let mut ids: BTreeMap<&str, u32> = BTreeMap::new();
+    for (id, how, ok) in &events {
+        *ids.entry(id.as_str()).or_default() += 1;
+        if how == "eq" {
+            cnt.persisted_eq += 1;
+        } else {
+            cnt.persisted_bytes += 1;
+        }
+        if !ok {
+            if id.contains(EXEMPT_ID) {
+                cnt.exempt_events += 1;
+            } else {
+                // class: the id kind (text before the first parenthesised argument of the innermost id)
+                let kind: String = id.replace("Fe(", "").replace("Be(", "").split('(').next().unwrap_or("").trim_end_matches(')').to_string();
+                bad.push((format!("ir-readback-differs:{kind}"), format!("{id} written to the IR directory does not read back equal (compared by {how})")));
+            }
+        }
+    }
+    // (d) one file per id, no other files
+    if with_ir.is_ok() {
+        let mut files = vec![];
+        count_files(ir.path(), "", &mut files);
+        let marker = files.iter().filter(|f| *f == MARKER).count();
+        cnt.marker_files += marker as u64;
+        let data_files = files.len() - marker;
+        cnt.distinct_ids += ids.len() as u64;
+        cnt.files += data_files as u64;
+        let named = ids.keys().filter(|i| ["Glyph(", "Anchor(", "GlyfFragment(", "GvarFragment("].iter().any(|k| i.contains(k))).count();
+        let kern_ids = ids.keys().filter(|i| i.contains("KernInstance(")).count();
+        let kern_files = files.iter().filter(|f| f.starts_with("kern_") && f.ends_with(".yml") && *f != "kern_locations.yml").count();
+        cnt.named_ids += named as u64;
+        cnt.kern_instance_ids += kern_ids as u64;
+        if named + kern_ids > 0 {
+            cnt.cases_with_data_ids += 1;
+        }
+        if kern_files < kern_ids {
+            bad.push(("kern-instance-filename-collision".into(), format!("{kern_ids} kerning instances were persisted into {kern_files} files: {:?}", files.iter().filter(|f| f.starts_with("kern_")).collect::<Vec<_>>())));
+        } else if data_files < ids.len() {
+            let mut listing = files.clone();
+            listing.sort();
+            bad.push(("ir-ids-share-a-file".into(), format!("{} distinct ids were persisted but the IR directory holds {data_files} files (besides {MARKER}): ids {:?}; files {listing:?}", ids.len(), ids.keys().collect::<Vec<_>>())));
+        } else if data_files > ids.len() {
+            let mut listing = files.clone();
+            listing.sort();
+            bad.push(("ir-file-without-id".into(), format!("{data_files} files (besides {MARKER}) for {} persisted ids: ids {:?}; files {listing:?}", ids.len(), ids.keys().collect::<Vec<_>>())));
+        }
+        if let Some(s) = sample {
+            let mut listing = files.clone();
+            listing.sort();
+            s.push(json!({"source": src_name, "options": on, "font_bytes": plain.as_ref().map(|b| b.len()).unwrap_or(0),
+                "persisted_ids": ids.len(), "ir_files": files.len(), "persisted_events": events.len(),
+                "some_ids": ids.keys().take(6).collect::<Vec<_>>(), "some_files": listing.iter().take(8).collect::<Vec<_>>()}));
+        }
+    }
+    drop(ir);
+    // (a) product binary
+    if product {
+        let dir = vcore::Scratch::new("c14-bin");
+        let run = |emit: bool| -> (vcore::ProcOutcome, Option<Vec<u8>>) {
+            let tag = if emit { "ir" } else { "plain" };
+            let out = dir.join(&format!("{tag}.ttf"));
+            let mut cmd = vcore::fontc_cmd(&vcore::fontc_bin(), None);
+            cmd.arg(path).arg("-o").arg(&out).arg("-b").arg(dir.join(&format!("build-{tag}")));
+            if emit {
+                cmd.arg("--emit-ir");
+            }
+            cmd.args(opts.cli_args());
+            let o = vcore::run_proc(&mut cmd, 120_000, Some(8 << 30));
+            let bytes = std::fs::read(&out).ok();
+            (o, bytes)
+        };
+        let (pa, fa) = run(false);
+        let (pb, fb) = run(true);
+        match (pa.code, pb.code, fa, fb) {
+            (Some(0), Some(0), Some(a), Some(b)) => {
+                if a == b {
+                    cnt.product_pairs_equal += 1;
+                } else {
+                    bad.push(("font-differs-with-ir:product-binary".into(), format!("fontc and fontc --emit-ir give {} and {} bytes that differ", a.len(), b.len())));
+                }
+                if let Ok(inproc) = &plain {
+                    if *inproc != a {
+                        // not part of the property; recorded because it would make (a) vacuous
+                        bad.push(("in-process-differs-from-product-binary".into(), format!("in-process font {} bytes, product binary {} bytes", inproc.len(), a.len())));
+                    }
+                }
+            }
+            (ca, cb, fa, fb) => {
+                let same = ca == cb && fa.is_some() == fb.is_some() && ca != Some(0);
+                if same && plain.is_err() {
+                    cnt.product_not_buildable += 1;
+                } else {
+                    bad.push((
+                        "outcome-differs-with-ir:product-binary".into(),
+                        format!("without --emit-ir: {} (font {}); with: {} (font {}); in process: {}; stderr: {}", pa.summary(), fa.is_some(), pb.summary(), fb.is_some(),
+                            if plain.is_ok() { "builds" } else { "fails" }, pb.stderr.lines().last().unwrap_or("")),
+                    ));
+                }
+            }
+        }
+    }
+    bad.sort();
+    bad.dedup_by(|a, b| a.0 == b.0);
+    bad
+}
+
+fn part_font(rep: &mut Reporter, tier: Tier) -> Stats {
+    // sources: generated designs (written once) and repo fixtures (read in place)
+    let gen_dir = vcore::Scratch::new("c14-src");
+    let mut sources: Vec<Source> = vec![];
+    for g in GENERATED {
+        let d = generated(g).unwrap();
+        let dir = gen_dir.join(g);
+        let path = d.write_source(&dir).unwrap_or_else(|e| vcore::machinery_error(&format!("cannot write {g}: {e}")));
+        sources.push(Source { name: g.to_string(), kind: SrcKind::Generated(g), path });
+    }
+    let fixtures: Vec<String> = match tier {
+        Tier::Quick => FIXTURES_QUICK.iter().map(|s| s.to_string()).collect(),
+        Tier::Thorough => all_fixtures(),
+    };
+    for f in &fixtures {
+        let path = fixture_root().join(f);
+        if !path.exists() {
+            vcore::machinery_error(&format!("fixture {path:?} is missing"));
+        }
+        sources.push(Source { name: f.clone(), kind: SrcKind::Fixture(f.clone()), path });
+    }
+    let product = vcore::fontc_bin().exists();
+    if !product {
+        rep.assume("the product binary is not built: the --emit-ir comparison was NOT run (run through ./check)");
+    }
+    let opts = option_sets();
+    let cases: Vec<(usize, usize)> = (0..sources.len()).flat_map(|s| (0..opts.len()).map(move |o| (s, o))).collect();
+    let results = vcore::par_for(cases.len(), vcore::ncores(), |ci| {
+        let (si, oi) = cases[ci];
+        let src = &sources[si];
+        let mut cnt = BCounts::default();
+        let mut samples = vec![];
+        let want = oi == 0 && (si < 5 || si % 17 == 0);
+        let found = check_build(&src.name, &src.path, &opts[oi], product, &mut cnt, if want { Some(&mut samples) } else { None });
+        (cnt, found, samples)
+    });
+    let mut total = BCounts::default();
+    let mut cls = Classes::default();
+    let mut samples = vec![];
+    let mut not_buildable = vec![];
+    for (ci, (c, found, s)) in results.into_iter().enumerate() {
+        let (si, oi) = cases[ci];
+        let src = &sources[si];
+        if c.not_buildable > 0 && oi == 0 {
+            not_buildable.push(src.name.clone());
+        }
+        total.add(&c);
+        if samples.len() < 8 {
+            samples.extend(s);
+        }
+        for (key, msg) in found {
+            let kind = match &src.kind {
+                SrcKind::Generated(g) => json!({"generated": g}),
+                SrcKind::Fixture(f) => json!({"fixture": f}),
+            };
+            cls.add(
+                &key,
+                format!("{} [{}]: {msg}", src.name, opts[oi].name()),
+                json!({"kind": "build", "source": kind, "opts": serde_json::to_value(&opts[oi]).unwrap_or(Value::Null)}),
+                (si * 10 + oi, String::new()),
+            );
+        }
+    }
+    cls.report(rep);
+    rep.set("build_sources", sources.iter().map(|s| s.name.clone()).collect::<Vec<_>>());
+    rep.set("build_option_sets", opts.iter().map(|o| o.name()).collect::<Vec<_>>());
+    rep.set("build_cases", total.cases);
+    rep.set("build_cases_built", total.built);
+    rep.set("build_sources_not_buildable", json!(not_buildable));
+    rep.set("inprocess_pairs_identical", total.inproc_pairs_equal);
+    rep.set("product_binary_pairs_identical", total.product_pairs_equal);
+    rep.set("product_binary_cases_not_buildable", total.product_not_buildable);
+    rep.set("persisted_events", total.persisted_events);
+    rep.set("persisted_events_compared_by_eq", total.persisted_eq);
+    rep.set("persisted_events_compared_by_bytes", total.persisted_bytes);
+    rep.set("persisted_events_exempt_not_equal", total.exempt_events);
+    rep.set("persisted_distinct_ids", total.distinct_ids);
+    rep.set("ir_files", total.files);
+    rep.set("ir_marker_files", total.marker_files);
+    rep.set("persisted_named_ids", total.named_ids);
+    rep.set("persisted_kern_instance_ids", total.kern_instance_ids);
+    rep.set("build_samples", samples);
+    rep.assume("parts (a), (b), (d): generated designs J0, J1, J2 (checks::sources), 'names' (glyphs a, A, con, CON, nul, a.b, a_b, A_ with anchors and kerning) and 'closekern' (kerning masters at normalized 0.501 and 0.504), plus repo fixtures (quick: six named ones; thorough: every .designspace/.glyphs/.glyphspackage/.ufo of resources/testdata and its glyphs2, glyphs3, dspace_rules, designspace_from_glyphs folders), each under six option sets");
+    rep.assume("(b) uses the cfg(fontc_verif) read-back events of ContextItem/ContextMap::set; the id ExtraFeaTables is exempt because its os2_builder field is documented as session-only; (d) counts files: features.marker is the one documented file written without a context item and is set aside; equality of the two counts is what is asserted, a collision and a stray file in the same build would cancel out (part (c) covers the naming function itself)");
+    rep.assume("a source that does not build must fail the same way with and without IR; such cases are counted, not judged further");
+    drop(gen_dir);
+    Stats {
+        evaluations: total.cases * 2 + total.persisted_events,
+        nontrivial: total.cases_with_data_ids,
+    }
+}
+
+fn replay_build(r: &Value) -> ! {
+    let bad = |m: &str| -> ! { vcore::machinery_error(&format!("replay: {m}")) };
+    let opts: fcx::Opts = serde_json::from_value(r.get("opts").cloned().unwrap_or(Value::Null)).unwrap_or_else(|e| bad(&format!("opts: {e}")));
+    let src = r.get("source").unwrap_or_else(|| bad("source"));
+    let gen_dir = vcore::Scratch::new("c14-src");
+    let (name, path) = if let Some(g) = src.get("generated").and_then(|x| x.as_str()) {
+        let d = generated(g).unwrap_or_else(|| bad("unknown generated source"));
+        (g.to_string(), d.write_source(&gen_dir.join(g)).unwrap_or_else(|e| bad(&e.to_string())))
+    } else if let Some(f) = src.get("fixture").and_then(|x| x.as_str()) {
+        (f.to_string(), fixture_root().join(f))
+    } else {
+        bad("source must be generated or fixture")
+    };
+    let mut cnt = BCounts::default();
+    let mut sample = vec![];
+    let found = check_build(&name, &path, &opts, vcore::fontc_bin().exists(), &mut cnt, Some(&mut sample));
+    println!("{name} [{}]", opts.name());
+    if let Some(s) = sample.first() {
+        println!("{s}");
+    }
+    for (k, m) in &found {
+        println!("{k}: {m}");
+    }
+    drop(gen_dir);
+    let fails = !found.is_empty();
+    println!("replay: the case {}", if fails { "still fails" } else { "no longer fails" });
+    vcore::cleanup_scratch();
+    std::process::exit(fails as i32)
+}
 
 fn fold(s: &str, how: &str) -> String {
     match how {
@@ -657,6 +1138,9 @@ fn replay(path: &Path) -> ! {
     let kind = r.get("kind").and_then(|k| k.as_str()).unwrap_or_else(|| bad("no kind"));
     let how = r.get("fold").and_then(|k| k.as_str()).unwrap_or("exact");
     std::panic::set_hook(Box::new(|_| {}));
+    if kind == "build" {
+        replay_build(r);
+    }
     let fails = match kind {
         "names" => {
             let a = r.get("a").and_then(|x| x.as_str()).unwrap_or_else(|| bad("a"));
@@ -712,6 +1196,8 @@ fn replay(path: &Path) -> ! {
 }
 
 fn main() {
+    // one build epoch for every in-process compile
+    unsafe { std::env::set_var("SOURCE_DATE_EPOCH", "1700000000") };
     let args = vcore::parse_args();
     if let Some(p) = &args.replay {
         replay(p);
@@ -720,12 +1206,12 @@ fn main() {
     let hook = std::panic::take_hook();
     std::panic::set_hook(Box::new(|_| {}));
     let pure = part_pure(&mut rep, args.tier);
+    let font = part_font(&mut rep, args.tier);
     std::panic::set_hook(hook);
-    // let font = part_font(&mut rep, args.tier);
-    rep.set("evaluations", pure.evaluations);
-    rep.set("distinct_nontrivial", pure.nontrivial);
-    rep.set("rule", "evaluations = names given to string_to_filename + work ids given to the two target_file functions (all pairs are judged, by grouping on the produced path). distinct_nontrivial = distinct names whose file name is not simply name+suffix (escaping, case code or reserved-name protection exercised) + pairs of distinct kern-instance locations closer than 0.01 on every axis (the pairs a rounded location in a file name can confuse)");
+    rep.set("evaluations", pure.evaluations + font.evaluations);
+    rep.set("distinct_nontrivial", pure.nontrivial + font.nontrivial);
+    rep.set("rule", "evaluations = names given to string_to_filename + work ids given to the two target_file functions (all pairs are judged, by grouping on the produced path). distinct_nontrivial = distinct names whose file name is not simply name+suffix (escaping, case code or reserved-name protection exercised) + pairs of distinct kern-instance locations closer than 0.01 on every axis (the pairs a rounded location in a file name can confuse); parts (a),(b),(d) add two builds per (source, option set) plus every read-back event, and the (source, option set) pairs whose IR directory received at least one glyph-, anchor- or kerning-instance-named file");
     rep.set("exhaustive", true);
-    rep.set("parts_implemented", json!(["c: pure injectivity"]));
+    rep.set("parts_implemented", json!(["a: same font with and without IR", "b: IR reads back equal", "c: pure injectivity", "d: one file per persisted id"]));
     rep.finish()
 }
